@@ -1,6 +1,6 @@
 """C12 -- circuits built with normalised parameterisations are normalised (structural clauses)."""
 from ..core import Ctx, Ob, PropSpec
-from ..rules import names, r1, r3, r5, r13, r11
+from ..rules import names, r1, r3, r4, r5, r13, r11
 
 SOFT = ("SoftmaxParameter", "LogSoftmaxParameter", "MixingWeightParameter", "SigmoidParameter")
 
@@ -20,6 +20,8 @@ def run(ctx: Ctx) -> list[Ob]:
     obs += r13.r13c(ctx, 'cirkit.templates.pgms.hmm', {'input_layer_kwargs'})
     obs += r11.r11d(ctx)
     obs += [o for o in r11.r11c(ctx) if ':finite' in o.instance]
+    obs += [o for o in r4.param_op_contracts(ctx) if o.construct.endswith(tuple('Torch' + n for n in SOFT))]
+    obs += [o for o in r3.r3d(ctx) if o.instance.startswith('settings:')]
     return obs
 
 
@@ -33,11 +35,12 @@ SPEC = PropSpec(
         "keep it); R1b/R1c -- their compilation rules build the torch counterparts and forward axis -> dim; R3f -- the torch nodes keep "
         "dim in config (the folder re-instantiates them); R5a -- TorchSoftmaxParameter / TorchLogSoftmaxParameter apply the softmax "
         "along dim + 1 (the fold axis shift). R13a / R13c on the hmm template (a normalised template with per-variable arguments): every per-variable table is read by variable id (index-space typing: ordering is position-indexed, per-variable arguments are variable-indexed), otherwise a variable is normalised over another variable's number of categories. R11d / R11c: every hand-written stable exponential exp(x - max(..)) in the torch backend takes the maximum along an axis (never over the whole tensor) and the log-space reduce makes its shift finite -- otherwise normalised weights of very different scale, or log 0, evaluate to nan instead of a distribution."
+        " R4a/R4l on the normalising operators (softmax, log-softmax, sigmoid, mixing weights; shape interpretation): forward returns (F, *shape) and, for the mixing-weight matrix, the H*K columns are laid out arity-major with the unit axis tied to the row by an identity -- a tile in place of an interleave pairs entry j of the weights with entry j of the identity across different factorisations of the axis, and the rows no longer sum to one unless gcd(K, H) = 1. R3d settings: the fold-group key of layers contains the whole config (two Binomial layers with different total_count must not share a folded layer that is rebuilt from the first one's config)."
     ),
     not_decided=(
         "Z == 1 itself, non-negativity and finiteness in log space (numerical); that every template wires the factories into every sum "
         "layer; normalisation of the input distributions; behaviour after training steps."
     ),
     run=run,
-    floors={"R11d": 2, "R13a": 2, "R13c": 2, "N1": 2, "R1c": 4, "R5a": 2, "R3a": 4},
+    floors={"R4a": 8, "R11d": 2, "R13a": 2, "R13c": 2, "N1": 2, "R1c": 4, "R5a": 2, "R3a": 4},
 )
